@@ -51,6 +51,8 @@ ANY = "fiubmM"
 _OPS = [
     # ---------------------------------------------------------------- reductions
     Op("size", "reduce", lambda g, c: g.size(mask=c.M), ALLM, ANY, needs_values=False),
+    Op("size_obsF", "reduce", lambda g, c: g.size(mask=c.M, observed_only=False), ALLM, ANY,
+       needs_values=False),
     Op("count", "reduce", lambda g, c: g.count(c.V, mask=c.M), ALLM, ANY),
     Op("sum", "reduce", lambda g, c: g.sum(c.V, mask=c.M), ALLM, "fiubm"),
     Op("mean", "reduce", lambda g, c: g.mean(c.V, mask=c.M), ALLM, NUM),
